@@ -206,13 +206,19 @@ def shuffle_modes(ctx, n=None):
             if t_ is not None and not t_.get("doctest"):
                 t_["setUp"]["atexit_fd2"] = rng.choice(["fixture-server: stopped\n", "bye\n", "2 leaked handles\n"])
         seed = rng.randint(0, 10 ** 6)
-        jobs.append((i, w, seed, rng.choice([2, 3, 4]), rng.randint(0, 10 ** 6)))
+        wo = {}
+        if i % 4 == 2:
+            # started through a wrapper script (options from sys.argv); tests that empty sys.argv in place run in the
+            # main process before the other layers are resumed in subprocesses - which must shuffle like the parent
+            worlds.shape_argv_clobber(rng, w, wo)
+            wo.pop("processes", None)
+        jobs.append((i, w, seed, rng.choice([2, 3, 4]), rng.randint(0, 10 ** 6), wo))
 
     def one(job):
-        i, w, seed, j, argseed = job
+        i, w, seed, j, argseed, wo = job
         d = os.path.join(ctx.tmp, "sm%05d" % i)
         worlds.materialize(w, d)
-        base = {"verbose": 1, "shuffle_seed": seed, "argseed": argseed}
+        base = dict(wo, verbose=1, shuffle_seed=seed, argseed=argseed)
         res = {
             "list1": worlds.run_real(w, dict(base, list=True), d),
             "listj": worlds.run_real(w, dict(base, list=True, processes=j), d),
@@ -225,8 +231,8 @@ def shuffle_modes(ctx, n=None):
         return res
     with concurrent.futures.ThreadPoolExecutor(max_workers=6) as ex:
         results = list(ex.map(one, jobs))
-    for (i, w, seed, j, argseed), res in zip(jobs, results):
-        case = {"world": w, "seed": seed, "processes": j, "argseed": argseed}
+    for (i, w, seed, j, argseed, wo), res in zip(jobs, results):
+        case = {"world": w, "seed": seed, "processes": j, "argseed": argseed, "opts": wo}
         ctx.count(("shuffle-modes", str(w)[:500], seed, j), nontrivial=True, sample=None)
         ctx.bump("shuffle-modes")
         tests = {t["id"]: t for t in w["tests"]}
